@@ -13,6 +13,7 @@ FirstFail(c) == IF \E j \in DOMAIN c.stages : c.stages[j].cls # "ok"
 
 \* violations that are visible from literals alone: known when the text is parsed
 LitIx(x) == x.k = "num"
+AllLit(r) == r.start.k \in {"num", "none"} /\ r.stop.k \in {"num", "none"} /\ r.step.k \in {"num", "none"}
 LiteralInvalid(prog) ==
   LET sizes == [r \in { prog.regs[j].v : j \in { x \in DOMAIN prog.regs : prog.regs[x].k = "reg" /\ LitIx(prog.regs[x].size) } } |->
                   prog.regs[CHOOSE j \in DOMAIN prog.regs : prog.regs[j].v = r /\ prog.regs[j].k = "reg"].size.n]
@@ -26,8 +27,10 @@ LiteralInvalid(prog) ==
                        \/ (r.src \in DOMAIN sizes /\
                            ( (r.mode = "index" /\ LitIx(r.idx) /\ (r.idx.n < 0 \/ r.idx.n >= sizes[r.src]))
                              \/ (r.mode = "slice" /\ LitIx(r.step) /\ r.step.n = 0)
-                             \/ (r.mode = "slice" /\ LitIx(r.start) /\ r.start.n < 0)
-                             \/ (r.mode = "slice" /\ LitIx(r.stop) /\ r.stop.n > sizes[r.src]) )))
+                             \* (whether a slice has any element at all depends on all three bounds: a negative
+                             \* start or a stop beyond the source is visible from literals only if none is a constant)
+                             \/ (r.mode = "slice" /\ AllLit(r) /\ LitIx(r.start) /\ r.start.n < 0)
+                             \/ (r.mode = "slice" /\ AllLit(r) /\ LitIx(r.stop) /\ r.stop.n > sizes[r.src]) )))
   IN \/ ~NoDupNames(prog)
      \/ \E j \in DOMAIN prog.regs : badAlias(prog.regs[j]) \/ (prog.regs[j].k = "reg" /\ LitIx(prog.regs[j].size) /\ prog.regs[j].size.n <= 0)
      \/ \E j \in DOMAIN ss : ss[j].k = "gate" /\ \E a \in DOMAIN ss[j].args : badQubit(ss[j].args[a]) \/ undefinedRef(ss[j].args[a])
@@ -44,16 +47,28 @@ StripCallsStmt(s, names) ==
     [] OTHER -> s
 StripCalls(p) == [p EXCEPT !.body = SelectSeq([j \in DOMAIN p.body |-> StripCallsStmt(p.body[j], MacroNames(p))], LAMBDA x : x.k # "dropped")]
 
+\* a negative loop or subcircuit count is not among the references C14 speaks about (the implementation runs such a
+\* loop zero times): programs with one are left to the other clauses
+RECURSIVE NegCount(_)
+NegCount(m) == CASE m.k \in {"L", "U"} -> (m.cnt.k = "num" /\ m.cnt.i /\ m.cnt.n < 0) \/ NegCount(m.c[1])
+                 [] m.k \in {"S", "P"} -> \E j \in DOMAIN m.c : NegCount(m.c[j])
+                 [] OTHER -> FALSE
+AllNonEmpty(prog, ovr) == LET t == RegTab(prog, Env(prog, ovr)) IN \A r \in DOMAIN t : t[r].ok => Len(t[r].elems) >= 1
+
 VClauses(c) ==
   LET valid == ValidAll(c.model, c.ovr)
       ff == FirstFail(c)
       allok == ff.stage = "none"
   IN F("error_type", \E j \in DOMAIN c.stages : c.stages[j].cls \notin {"ok", "jaqal_error", "parse_error", "skipped"})
-     \cup F("invalid_rejected", ~valid /\ allok)
+     \cup F("invalid_rejected", ~valid /\ allok /\ ~NegCount(Meaning(c.model, c.ovr)))
      \* the parser sees the declared values only: acceptance is demanded for pairs valid under both the
      \* declared and the overriding environment
-     \cup F("valid_accepted", valid /\ ValidAll(c.model, <<>>) /\ ~allok)
-     \cup F("literal_rejected_at_parse", LiteralInvalid(c.model) /\ ~allok /\ StageIdx(ff.stage) > 1)
+     \* (aliases without elements are left open, see PassClauses!NoEmptyAlias)
+     \cup F("valid_accepted", valid /\ ValidAll(c.model, <<>>) /\ ~allok /\
+              LET t1 == RegTab(c.model, Env(c.model, c.ovr)) t0 == RegTab(c.model, Env(c.model, <<>>)) IN
+              (\A r \in DOMAIN t1 : t1[r].ok => Len(t1[r].elems) >= 1) /\ (\A r \in DOMAIN t0 : t0[r].ok => Len(t0[r].elems) >= 1))
+     \* (aliases without elements are left open: PassClauses!NoEmptyAlias)
+     \cup F("literal_rejected_at_parse", LiteralInvalid(c.model) /\ AllNonEmpty(c.model, <<>>) /\ ~allok /\ StageIdx(ff.stage) > 1)
      \cup F("known_by_let_stage", ~ValidAll(StripCalls(c.model), c.ovr) /\ ~allok /\ StageIdx(ff.stage) > 2)
      \cup F("honoured", valid /\ allok /\ c.hooked /\
             LET tree == ExecTree(c.model, c.ovr)
